@@ -51,8 +51,9 @@ type loopRun struct {
 }
 
 type modTarget struct {
-	heap bool   // object heap (else array heap)
-	sort string
+	heap bool // object heap (else array heap)
+	typ  types.Type // pointee / element type
+	sort string // heap key; "map:<type>" for maps
 	ref  *T
 }
 
@@ -74,6 +75,7 @@ type frame struct {
 	top     bool
 	inDefer bool // this frame was pushed by RunDefers
 	panicking bool
+	curLoop *loopInfo // loop whose contract is being evaluated
 }
 
 func (fr *frame) clone() *frame {
@@ -94,15 +96,42 @@ func (fr *frame) clone() *frame {
 	return &n
 }
 
-// lookupLocal finds the cell of the local variable `name` visible at pos.
+// lookupLocal finds the cell of the local variable `name` visible at pos,
+// using the type checker's scopes; hidden variables (rangeindex) by loop.
 func (fr *frame) lookupLocal(name string, pos token.Pos) *Cell {
+	if name == "rangeindex" {
+		// the hidden index of the range loop whose header is the current loop
+		if fr.curLoop != nil {
+			for _, in := range fr.curLoop.header.Instrs {
+				if st, ok := in.(*ssa.Store); ok {
+					if a, ok := st.Addr.(*ssa.Alloc); ok && a.Comment == "rangeindex" {
+						return fr.cells[a]
+					}
+				}
+			}
+		}
+		return nil
+	}
+	if fr.fn.Pkg != nil && pos.IsValid() {
+		if sc := fr.fn.Pkg.Pkg.Scope().Innermost(pos); sc != nil {
+			if _, obj := sc.LookupParent(name, pos); obj != nil {
+				if v, ok := obj.(*types.Var); ok && !v.IsField() && v.Parent() != fr.fn.Pkg.Pkg.Scope() {
+					for a, c := range fr.cells {
+						if a != nil && a.Pos() == v.Pos() && a.Comment == name {
+							return c
+						}
+					}
+				}
+				return nil
+			}
+		}
+	}
 	var best *Cell
 	var bestPos token.Pos = -1
 	for a, c := range fr.cells {
 		if a.Comment != name {
 			continue
 		}
-		// choose the innermost declaration before pos: the one with the greatest position <= pos
 		ap := a.Pos()
 		if pos.IsValid() && ap.IsValid() && ap > pos {
 			continue
@@ -483,13 +512,13 @@ func (x *executor) modTargetOf(ev *evaluator, e Expr) modTarget {
 	c := x.c
 	switch u := v.typ.Underlying().(type) {
 	case *types.Slice:
-		return modTarget{heap: false, sort: c.sortOf(u.Elem()), ref: c.slRef(v.t)}
+		return modTarget{heap: false, typ: u.Elem(), sort: heapKey(u.Elem()), ref: c.slRef(v.t)}
 	case *types.Pointer:
 		p := c.ptrOf(v)
 		if p.kind != pkHeap || len(p.path) != 0 {
 			ev.fail("modifies target must be a whole object pointer")
 		}
-		return modTarget{heap: true, sort: c.sortOf(u.Elem()), ref: p.ref}
+		return modTarget{heap: true, typ: u.Elem(), sort: heapKey(u.Elem()), ref: p.ref}
 	case *types.Map:
 		return modTarget{heap: true, sort: "map:" + typeKey(v.typ), ref: v.t}
 	}
@@ -564,6 +593,8 @@ func (x *executor) enterLoopHeader(m *machine, fr *frame, li *loopInfo) bool {
 		lname = fr.key + ":" + lname
 	}
 	back := fr.pred != nil && li.blocks[fr.pred]
+	fr.curLoop = li
+	defer func() { fr.curLoop = nil }()
 	if back {
 		lr := fr.active[li.header]
 		if lr == nil {
@@ -648,8 +679,9 @@ func clauseName(cl *clause, i int) string {
 }
 
 // valueWF: facts true of every Go value of the type (not only of inputs)
-func (x *executor) valueWF(v *T, t types.Type) *T {
-	c := x.c
+func (x *executor) valueWF(v *T, t types.Type) *T { return x.c.valueWF(v, t) }
+
+func (c *ctx) valueWF(v *T, t types.Type) *T {
 	if w, s, ok := intInfo(t); ok {
 		return c.inRange(v, w, s)
 	}
@@ -658,19 +690,19 @@ func (x *executor) valueWF(v *T, t types.Type) *T {
 		z := c.I(0)
 		intT := types.Typ[types.Int]
 		le := func(a, b *T) *T { return c.cmp(token.LEQ, a, b, intT) }
-		return mkAnd(le(z, c.slOff(v)), le(c.slOff(v), c.I(1<<40)), le(z, c.slLen(v)), le(c.slLen(v), c.slCap(v)), le(c.slCap(v), c.I(1<<40)),
+		return mkAnd(le(z, c.slOff(v)), le(c.slOff(v), c.I(1<<62)), le(z, c.slLen(v)), le(c.slLen(v), c.slCap(v)), le(c.slCap(v), c.I(1<<62)),
 			mkImp(mkEq(c.slRef(v), refConst(0)), mkEq(c.slCap(v), z)))
 	case *types.Struct:
 		si := c.structOf(t)
 		var cs []*T
 		for i := 0; i < u.NumFields(); i++ {
-			cs = append(cs, x.valueWF(mkSel(si.ctor, i, v), u.Field(i).Type()))
+			cs = append(cs, c.valueWF(mkSel(si.ctor, i, v), u.Field(i).Type()))
 		}
 		return mkAnd(cs...)
 	case *types.Basic:
 		if isString(t) {
 			intT := types.Typ[types.Int]
-			return mkAnd(c.cmp(token.LEQ, c.I(0), app("slen", c.intSort(), v), intT), c.cmp(token.LEQ, app("slen", c.intSort(), v), c.I(1<<40), intT))
+			return mkAnd(c.cmp(token.LEQ, c.I(0), app("slen", c.intSort(), v), intT), c.cmp(token.LEQ, app("slen", c.intSort(), v), c.I(1<<62), intT))
 		}
 	}
 	return tTrue
@@ -683,14 +715,15 @@ func (x *executor) havocTarget(st *state, mt modTarget) {
 		return
 	}
 	if mt.heap {
-		h := c.heapOf(st, mt.sort)
-		nv := c.d.fresh("hv_"+mt.sort, mt.sort)
-		st.heaps[mt.sort] = c.name(st, "H_"+mt.sort, mkStore(h, mt.ref, nv))
+		h := c.heapOf(st, mt.typ)
+		nv := c.d.fresh("hv_"+mt.sort, c.sortOf(mt.typ))
+		st.assume(c.valueWF(nv, mt.typ))
+		c.setHeap(st, mt.typ, mkStore(h, mt.ref, nv))
 		return
 	}
-	a := c.arrOf(st, mt.sort)
-	nv := c.d.fresh("av_"+mt.sort, arraySort(c.intSort(), mt.sort))
-	st.arrs[mt.sort] = c.name(st, "A_"+mt.sort, mkStore(a, mt.ref, nv))
+	a := c.arrOf(st, mt.typ)
+	nv := c.freshArr("av_"+mt.sort, mt.typ)
+	c.setArr(st, mt.typ, mkStore(a, mt.ref, nv))
 }
 
 // cellsWrittenInLoop finds cells (of the current frame chain) that instructions in
@@ -816,4 +849,49 @@ func (x *executor) isInlined(f *ssa.Function) bool {
 	}
 	fc := x.specs.funcs[x.prog.funcKey(f)]
 	return fc != nil && fc.inline
+}
+
+// verifyLemma turns a lemma (universally quantified over its parameters) into one obligation
+func (x *executor) verifyLemma(lm *lemmaDecl) (o *obligation, err error) {
+	defer func() {
+		if r := recover(); r != nil {
+			switch e := r.(type) {
+			case unsupportedErr:
+				err = fmt.Errorf("lemma %s: %s", lm.name, string(e))
+			case evalErr:
+				err = fmt.Errorf("lemma %s: contract error: %s", lm.name, e.msg)
+			default:
+				panic(r)
+			}
+		}
+	}()
+	x.key = "lemma:" + lm.name
+	sp := x.prog.spkgs[lm.pkg]
+	if sp == nil {
+		return nil, fmt.Errorf("lemma %s: package %s not loaded", lm.name, lm.pkg)
+	}
+	x.pkg = sp.Pkg
+	x.c = newCtx(lm.mode == "bv")
+	st := newState()
+	m := &machine{st: st}
+	ev := &evaluator{x: x, st: st, vars: map[string]Val{}, pkg: x.pkg, where: lm.cl.line}
+	for _, b := range lm.params {
+		t := ev.resolveType(b.Type)
+		ev.vars[b.Name] = x.symbolic(st, b.Name, t)
+	}
+	for _, ax := range x.specs.axioms {
+		if ax.pkg != lm.pkg {
+			continue
+		}
+		e2 := *ev
+		e2.where = ax.cl.line
+		st.assume(e2.evalBool(ax.cl.e))
+		x.axiomsUsed[ax.name] = true
+	}
+	g := ev.evalBool(lm.cl.e)
+	o = &obligation{name: "lemma:" + lm.name, kind: "lemma", fn: x.key, tags: lm.props, pc: m.st.pc, goal: g, st: st, c: x.c, text: lm.cl.text}
+	if isTrue(g) {
+		o.status = "trivial"
+	}
+	return o, nil
 }
